@@ -74,6 +74,7 @@ class Unevaluable(Exception):
 
 
 def _eval(node, env):
+    node = api.lazy_expr(node)
     code = compile(ast.fix_missing_locations(ast.Expression(body=node)), "<clause>", "eval")
     try:
         return eval(code, env)
@@ -152,6 +153,9 @@ def run_contract(contract, inputs, seconds=None):
 
 def bounded_contract(contract, seed, seconds=10.0, budget=20000):
     """Seeded random inputs from the sidecar's generators (GENERATORS = {type string: fn(rng) -> value})."""
+    driver = contract.sidecar_globals.get("MONITOR_DRIVER")
+    if driver is not None:
+        return monitor_contract(contract, driver, seed, seconds=seconds)
     gens = contract.sidecar_globals.get("GENERATORS", {})
     fsrc = frontend.get_function(contract.fq)
     names = [p for p, _ in fsrc.params()]
@@ -176,3 +180,155 @@ def bounded_contract(contract, seed, seconds=10.0, budget=20000):
         if f is not None:
             return {"ran": True, "evaluations": n, "fail": f}
     return {"ran": True, "evaluations": n, "fail": None, "domain": "seeded random inputs from the sidecar generators, %d evaluations" % n}
+
+
+# ---------------------------------------------------------------------------------------------------------
+# run-time monitoring: the contract wrapped around the real function while a driver exercises the real code
+
+
+class _Found(Exception):
+    def __init__(self, fail):
+        Exception.__init__(self, "contract failed")
+        self.fail = fail
+
+
+def _check_call(contract, fn, names, a, kw):
+    """One monitored call: returns (result, NativeFail or None); re-raises the function's own exceptions."""
+    bound = dict(zip(names, a))
+    bound.update(kw)
+    if len(bound) != len(names):
+        return fn(*a, **kw), None
+    env = dict(contract.sidecar_globals)
+    env.update(bound)
+    shown = {n: _show(v) for n, v in bound.items()}
+    try:
+        for (txt, node) in contract.requires:
+            if not _eval(copy.deepcopy(node), env):
+                return fn(*a, **kw), None  # outside the contract's precondition: nothing to check here
+    except (Unevaluable, api.PreFail):
+        return fn(*a, **kw), None
+    rewritten = []
+    for (txt, node) in contract.ensures:
+        rw = _OldRewriter()
+        n2 = rw.visit(copy.deepcopy(node))
+        olds = []
+        for o in rw.olds:
+            try:
+                olds.append(_snapshot(_eval(o, env)))
+            except Unevaluable:
+                olds.append(Unevaluable)
+        rewritten.append((txt, n2, olds))
+    conds = {}
+    for (name, cls, cond) in contract.raises:
+        if cls is None:
+            continue
+        if cond is not None:
+            try:
+                conds[cls] = (name, cond[0], bool(_eval(copy.deepcopy(cond[1]), env)))
+            except Unevaluable:
+                conds[cls] = (name, cond[0], None)
+        else:
+            conds[cls] = (name, None, None)
+    try:
+        result = fn(*a, **kw)
+    except BaseException as e:  # noqa
+        for cls, (name, ctxt, cval) in conds.items():
+            if isinstance(e, cls):
+                if cval is False:
+                    return None, NativeFail("%s raised %s although (%s) is false" % (contract.short, type(e).__name__, ctxt), shown, repr(e))
+                raise
+        if isinstance(e, (KeyboardInterrupt, SystemExit, MemoryError, RecursionError, _Found)):
+            raise
+        return None, NativeFail("%s raised %s which the contract does not permit" % (contract.short, type(e).__name__), shown, repr(e))
+    if contract.raises_exact:
+        for cls, (name, ctxt, cval) in conds.items():
+            if cval is True and api.is_exact(contract, name):
+                return result, NativeFail("%s returned normally although (%s) holds, which must raise %s" % (contract.short, ctxt, name), shown, "")
+    env["result"] = result
+    for (txt, node, olds) in rewritten:
+        if any(o is Unevaluable for o in olds):
+            continue
+        env["__olds__"] = olds
+        try:
+            ok = _eval(node, env)
+        except Unevaluable:
+            continue
+        if not ok:
+            return result, NativeFail("%s violates ensures: %s" % (contract.short, txt), shown, "result=%r" % (result,))
+    return result, None
+
+
+def _snapshot(v):
+    try:
+        return copy.deepcopy(v)
+    except Exception:
+        return v
+
+
+def _show(v):
+    if hasattr(v, "getvalue"):
+        return "<file %d bytes at %d>" % (len(v.getvalue()), v.tell())
+    if isinstance(v, dict):
+        out = {}
+        for k, x in list(v.items())[:80]:
+            if k == "_file" and hasattr(x, "getvalue"):
+                out[k] = {"__kind__": "file", "data": list(x.getvalue()), "pos": x.tell()}
+            elif isinstance(x, (int, bool, str, type(None))):
+                out[k] = x
+            else:
+                out[k] = "<%s>" % type(x).__name__
+        return out
+    if isinstance(v, (int, bool, str, type(None))):
+        return v
+    return "<%s>" % type(v).__name__
+
+
+def monitor_contract(contract, driver, seed, seconds=15.0, budget=4000):
+    """Wraps the real function with its contract (native semantics), runs driver(rng) repeatedly, returns the first failure."""
+    import sys
+
+    frontend.ensure_repo_on_path()
+    fn = resolve(contract.fq)
+    fsrc = frontend.get_function(contract.fq)
+    names = [p for p, _ in fsrc.params()]
+    calls = [0]
+
+    def wrapper(*a, **kw):
+        calls[0] += 1
+        result, fail = _check_call(contract, fn, names, a, kw)
+        if fail is not None:
+            raise _Found(fail)
+        return result
+
+    wrapper.__wrapped__ = fn
+    patched = []
+    for mname, mod in list(sys.modules.items()):
+        if mod is None or not mname.startswith("vc2_conformance"):
+            continue
+        for attr, val in list(vars(mod).items()):
+            if val is fn:
+                setattr(mod, attr, wrapper)
+                patched.append((mod, attr))
+    rng = random.Random(seed)
+    t0 = time.time()
+    runs = 0
+    fail = None
+    stream = None
+    try:
+        while time.time() - t0 < seconds and runs < budget:
+            runs += 1
+            try:
+                stream = driver(rng)
+            except _Found as f:
+                fail = f.fail
+                stream = getattr(driver, "last_input", None)
+                break
+    finally:
+        for (mod, attr) in patched:
+            setattr(mod, attr, fn)
+    if fail is not None:
+        if stream is not None:
+            fail.inputs = dict(fail.inputs, __driver_input__=stream)
+        return {"ran": True, "evaluations": calls[0], "fail": fail, "domain": "run-time monitoring of the contract while the driver runs the real code"}
+    return {"ran": True, "evaluations": calls[0], "fail": None,
+            "domain": "run-time monitoring: %d driver runs (seeded corpus streams and mutations), %d monitored calls" % (runs, calls[0])}
